@@ -222,7 +222,16 @@ def run(ctx):
         na, nb = rng.rint(-3, 3), rng.rint(-3, 3)
         if na == 0 and nb == 0:
             na = 1
-        hist = [(rng.choice("ab"), rand_ang(rng, False)) for _ in range(rng.rint(1, 4))]
+        hist = []
+        fixed = set()
+        for _ in range(rng.rint(1, 5)):
+            nm = rng.choice("ab")
+            if nm in fixed:
+                continue
+            kind = "fix" if rng.chance(1, 4) else "set"
+            if kind == "fix":
+                fixed.add(nm)
+            hist.append((nm, rand_ang(rng, False), kind))
         pa, pb = Parameter(f"a{i}"), Parameter(f"b{i}")
         terms = []
         if na:
@@ -230,9 +239,9 @@ def run(ctx):
         if nb:
             terms.append(f"{nb}*b{i}")
         expr_s = " + ".join(terms)
-        case = {"component": "PS(Expression)", "expr": expr_s, "a0": a0.value, "b0": b0.value,
-                "history": [(n, x.value) for n, x in hist]}
-        ctx.case(["expr", na, nb, a0.key(), b0.key(), [(n, x.key()) for n, x in hist]], True, case)
+        case = {"component": "PS(Expression), BS(theta=a)", "expr": expr_s, "a0": a0.value, "b0": b0.value,
+                "history": [(n, x.value, k) for n, x, k in hist]}
+        ctx.case(["expr", na, nb, a0.key(), b0.key(), [(n, x.key(), k) for n, x, k in hist]], True, case)
         ctx.count("expression")
         try:
             params = set()
@@ -249,7 +258,9 @@ def run(ctx):
             for st in steps:
                 if st is not None:
                     cur[st[0]] = st[1]
-                    (pa if st[0] == "a" else pb).set_value(st[1].value)
+                    prm = pa if st[0] == "a" else pb
+                    (prm.fix_value if st[2] == "fix" else prm.set_value)(st[1].value)
+                    ctx.count("history." + st[2])
                 out = ctx.model.run([(7, [[ph(cur["a"]), na], [ph(cur["b"]), nb]])])[0]
                 exp = un_qi(out)
                 got = complex(ps.compute_unitary()[0, 0])
@@ -257,14 +268,27 @@ def run(ctx):
                     ctx.fail("expression-stale", "component bound to an expression does not reflect current values",
                              case, str(exp), str(got))
                     break
-                # BS(theta = a): theta/2 is not Pythagorean in general -> compare through the float values
-                th = float(pa)
-                m = bs.compute_unitary()
-                if not close(complex(m[0, 0]), math.cos(th / 2), 1e-12) or not close(float(pa), cur["a"].value % (2 * math.pi) if False else float(pa), 1e-12):
-                    ctx.fail("parameter-stale", "component bound to a parameter does not reflect its current value",
-                             case, math.cos(th / 2), str(m[0, 0]))
+                # the symbolic computation must agree with the numeric one at the current values
+                # (an Expression keeps its symbols in the symbolic matrix: evaluate it at the current values)
+                subs = {pa.name: float(pa), pb.name: float(pb)}
+                gsym = complex(ps.compute_unitary(use_symbolic=True)[0, 0].subs(subs).evalf(30))
+                if not close(gsym, exp, 1e-9):
+                    ctx.fail("expression-stale-symbolic", "symbolic matrix of a component bound to an expression does not "
+                             "reflect the current parameter values", case, str(exp), str(gsym))
                     break
                 want = cur["a"].value
+                m = bs.compute_unitary()
+                if not close(complex(m[0, 0]), math.cos(want / 2), 1e-9) and not close(complex(m[0, 0]), -math.cos(want / 2), 1e-9):
+                    ctx.fail("parameter-stale", "component bound to a parameter does not reflect its current value",
+                             case, math.cos(want / 2), str(m[0, 0]))
+                    break
+                msym = bs.compute_unitary(use_symbolic=True)
+                msn = [[complex(msym[r, c].evalf(30)) for c in range(2)] for r in range(2)]
+                mn = [[complex(m[r, c]) for c in range(2)] for r in range(2)]
+                if not mat_close(msn, mn, 1e-9):
+                    ctx.fail("parameter-stale-symbolic", "symbolic and numeric matrices of a component bound to a parameter "
+                             "disagree after the parameter changed", case, str(mn), str(msn))
+                    break
                 if abs(math.cos(float(pa)) - math.cos(want)) > 1e-9:
                     ctx.fail("parameter-value", "parameter does not hold the value set", case, want, float(pa))
                     break
